@@ -200,9 +200,15 @@ func (s *RdbWriter) closeRdb() (err error) {
 	if s.pumped.Load() != s.rdbSize {
 		(*obr).Close(s.left, s.rdbSize, true)
 		return errors.Join(err, os.Remove(s.fn)) // remove *.rdb.tmp file
-	} else {
-		(*obr).Close(s.left, s.rdbSize, false)
-		dfn := strings.TrimSuffix(s.fn, ".tmp")
-		return errors.Join(err, os.Rename(s.fn, dfn)) // *.rdb.tmp -> *.rdb
 	}
+	// commit first : the snapshot is announced as complete only when the file carries its
+	// final name. A failed rename left the index offering a snapshot no reader can open
+	// (and that a restart would not find).
+	dfn := strings.TrimSuffix(s.fn, ".tmp")
+	if rerr := os.Rename(s.fn, dfn); rerr != nil { // *.rdb.tmp -> *.rdb
+		(*obr).Close(s.left, s.rdbSize, true)
+		return errors.Join(err, rerr, os.Remove(s.fn))
+	}
+	(*obr).Close(s.left, s.rdbSize, false)
+	return err
 }
